@@ -7,6 +7,7 @@
    behaviour before the fix, kept for the ..._without_F16 theorems. *)
 From Coq Require Import List NArith ZArith Bool.
 From JV Require Import Bytes Msg ErrsJson ErrsJsonProofs Errs ErrsProofs.
+From JV Require Json JsonProofs JsonTree JsonEq ErrsMore ErrsScan ErrsScanC Wire WireProofs WireSpecs WireMore ErrsWire.
 Import ListNotations.
 Local Open Scope Z_scope.
 
@@ -298,3 +299,162 @@ Theorem c14_cancellation_refuted_if_replaced :
   (forall r e', call_ctx false CtxLive r e' = call r e').
 Proof. exact cancellation_refuted_if_replaced. Qed.
 Print Assumptions c14_cancellation_refuted_if_replaced.
+
+(* -- the two JSON models agree (errs/ErrsMore.v): C14's byte-scanner model of json.Marshal(RawMessage)
+      and of a string's round trip vs C13's tree model (json/Json.v) ------------------------------------- *)
+
+(* a Go string through json.Marshal / json.Unmarshal: the same function in both models, for every input *)
+Theorem c14_message_model_agrees : forall m : bytes,
+  sanitize_utf8 m = Json.unquote (Json.escape_body m).
+Proof. exact ErrsMore.sanitize_is_unquote_escape. Qed.
+Print Assumptions c14_message_model_agrees.
+
+(* json.Marshal(RawMessage): on every text the tree parser accepts, what the scanner model returns
+   is the tree model's compaction *)
+Theorem c14_compact_models_agree : forall d d' : bytes,
+  Json.valid d = true -> compact d = Some d' -> Json.compact d = Some d'.
+Proof. exact ErrsMore.compact_models_agree. Qed.
+Print Assumptions c14_compact_models_agree.
+
+Theorem c14_squeeze_is_tree_compaction : forall d q : bytes, Json.compact d = Some q -> squeeze SqOut d = q.
+Proof. exact ErrsMore.squeeze_is_compact. Qed.
+Print Assumptions c14_squeeze_is_tree_compaction.
+
+(* the byte scanner accepts only what the tree parser accepts (errs/ErrsScan.v: every accepting run of the
+   scanner is read back as a well-formed tree whose exact text is the input) *)
+Theorem c14_scanner_accepts_only_json : forall d d' : bytes, compact d = Some d' -> Json.valid d = true.
+Proof. exact ErrsScan.scanner_accepts_valid. Qed.
+Print Assumptions c14_scanner_accepts_only_json.
+
+(* hence: whenever the scanner model of json.Marshal(RawMessage) yields a result, the tree model yields the same *)
+Theorem c14_compact_models_agree_all : forall d d' : bytes, compact d = Some d' -> Json.compact d = Some d'.
+Proof. exact ErrsScan.compact_models_agree_all. Qed.
+Print Assumptions c14_compact_models_agree_all.
+
+(* ... and conversely (errs/ErrsScanC.v): the two models of json.Marshal(json.RawMessage) / json.Compact - C14's
+   byte scanner and C13's tree parser + printer - are the same function, and so are the two validators *)
+Theorem c14_compact_models_equal : forall d : bytes, compact d = Json.compact d.
+Proof. exact ErrsScanC.compact_models_equal. Qed.
+Print Assumptions c14_compact_models_equal.
+
+Theorem c14_json_valid_models_equal : forall d : bytes, json_valid d = Json.valid d.
+Proof. exact ErrsScanC.json_valid_models_equal. Qed.
+Print Assumptions c14_json_valid_models_equal.
+
+(* error data arrive JSON-equal as VALUES (Json.parse), not only as token streams *)
+Theorem c14_data_json_equal_value : forall d d' : bytes,
+  wire_data d = Some d' -> d <> [] ->
+  Json.parse d' = Json.parse d /\ Json.compact d = Some d' /\ Json.parse d <> None.
+Proof. exact ErrsScan.data_json_equal_value. Qed.
+Print Assumptions c14_data_json_equal_value.
+
+Theorem c14_error_verbatim_value : forall r c m d d',
+  c <> Cancelled -> c <> DeadlineExceeded -> valid_utf8 m = true -> wire_data d = Some d' ->
+  call r (EJrpc c m d) = OErr (EJrpc c m d') /\ (d <> [] -> Json.parse d' = Json.parse d) /\ (d = [] -> d' = []).
+Proof. exact ErrsScan.error_verbatim_value. Qed.
+Print Assumptions c14_error_verbatim_value.
+
+(* -- Client.Batch: no filterError; an entry is the *Error of the wire, never a context sentinel ---------- *)
+
+Theorem c14_batch_code_preserved : forall r e, is_nil e = false -> code_dom e = true ->
+  outcome_code (ErrsMore.batch_outcome (deliver (invoke false r e))) = Some (error_code e).
+Proof. exact ErrsMore.batch_code_preserved. Qed.
+Print Assumptions c14_batch_code_preserved.
+
+Theorem c14_batch_code_preserved_exact : forall r e, is_nil e = false ->
+  (outcome_code (ErrsMore.batch_outcome (deliver (invoke false r e))) = Some (error_code e) <-> code_dom e = true).
+Proof. exact ErrsMore.batch_code_preserved_iff. Qed.
+Print Assumptions c14_batch_code_preserved_exact.
+
+Theorem c14_batch_code_is_call_code : forall r e,
+  outcome_code (ErrsMore.batch_outcome (deliver (invoke false r e))) = outcome_code (call r e).
+Proof. exact ErrsMore.batch_code_is_call_code. Qed.
+Print Assumptions c14_batch_code_is_call_code.
+
+Theorem c14_call_is_filtered_batch_entry : forall r e,
+  call r e = ErrsMore.filter_outcome (ErrsMore.batch_outcome (deliver (invoke false r e))).
+Proof. exact ErrsMore.call_is_filtered_batch. Qed.
+Print Assumptions c14_call_is_filtered_batch_entry.
+
+Theorem c14_batch_entry_never_sentinel : forall r e,
+  ErrsMore.batch_outcome (deliver (invoke false r e)) <> OErr ECanceled /\
+  ErrsMore.batch_outcome (deliver (invoke false r e)) <> OErr EDeadline.
+Proof. exact ErrsMore.batch_entry_never_sentinel. Qed.
+Print Assumptions c14_batch_entry_never_sentinel.
+
+Theorem c14_batch_cancelled_entry : forall r e, first_coder e = None -> reaches false e = true ->
+  ErrsMore.batch_outcome (deliver (invoke false r e)) = OErr (EJrpc Cancelled (sanitize_utf8 (error_text e)) []) /\
+  call r e = OErr ECanceled.
+Proof. exact ErrsMore.batch_cancelled_entry. Qed.
+Print Assumptions c14_batch_cancelled_entry.
+
+Theorem c14_batch_outcomes : forall cs,
+  ErrsMore.batch_outcomes cs = map (fun c => ErrsMore.batch_outcome (deliver (invoke false (fst c) (snd c)))) cs /\
+  List.length (ErrsMore.batch_outcomes cs) = List.length cs /\ ~ In OLost (ErrsMore.batch_outcomes cs).
+Proof. exact ErrsMore.batch_outcomes_spec. Qed.
+Print Assumptions c14_batch_outcomes.
+
+(* -- the callback direction (client OnCallback handler -> server): no NoError -> InternalError substitution -- *)
+
+Theorem c14_callback_code_preserved : forall e, is_nil e = false ->
+  error_code (ErrsMore.callback_error e) = error_code e.
+Proof. exact ErrsMore.cb_code_preserved. Qed.
+Print Assumptions c14_callback_code_preserved.
+
+Theorem c14_callback_wire_code : forall e, we_code (sent (ErrsMore.cb_to_wire e)) = error_code e.
+Proof. exact ErrsMore.cb_wire_code. Qed.
+Print Assumptions c14_callback_wire_code.
+
+Theorem c14_callback_directions_differ :
+  let e := ECoder KValVal NoError [107]%N in
+  is_nil e = false /\ error_code e = NoError /\
+  error_code (ErrsMore.callback_error e) = NoError /\ (forall r, outcome_code (call r e) = Some InternalError).
+Proof. exact ErrsMore.cb_directions_differ. Qed.
+Print Assumptions c14_callback_directions_differ.
+
+Theorem c14_callback_error_verbatim : forall c m d d',
+  c <> Cancelled -> c <> DeadlineExceeded -> valid_utf8 m = true -> wire_data d = Some d' ->
+  ErrsMore.callback_error (EJrpc c m d) = EJrpc c m d'.
+Proof. exact ErrsMore.cb_error_verbatim. Qed.
+Print Assumptions c14_callback_error_verbatim.
+
+Theorem c14_callback_sentinels : forall e, is_nil e = false ->
+  (ErrsMore.callback_error e = ECanceled <-> error_code e = Cancelled) /\
+  (ErrsMore.callback_error e = EDeadline <-> error_code e = DeadlineExceeded).
+Proof. exact ErrsMore.cb_sentinels. Qed.
+Print Assumptions c14_callback_sentinels.
+
+(* -- the model of transit is the wire round trip; the nesting side condition ------------------------------ *)
+
+(* what the C13 encoder writes for the error w and the C13 member parser reads back is Errs.sent w *)
+Theorem c14_transit_is_wire_round_trip : forall id w d' b,
+  WireMore.id_rt' id -> WireProofs.int32_ok (we_code w) -> wire_data (we_data w) = Some d' ->
+  (we_data w = [] \/ Json.valid (we_data w) = true) -> ErrsWire.data_fits d' = true ->
+  Wire.enc_msg (ErrsWire.err_rsp id w) = Some b ->
+  Wire.parse_msgs b = InMsgs false [WireProofs.canon (ErrsWire.err_rsp id w)] /\ j_id (Wire.parse_member b) = id /\
+  j_error (Wire.parse_member b) = Some (sent w).
+Proof. exact ErrsWire.transit_is_wire_round_trip. Qed.
+Print Assumptions c14_transit_is_wire_round_trip.
+
+Theorem c14_code_preserved_nested : forall r e,
+  is_nil e = false -> code_dom e = true -> ErrsWire.err_data_fits e = true ->
+  exists o, ErrsWire.call_nested r e = ErrsWire.Arrives o /\ outcome_code o = Some (error_code e).
+Proof. exact ErrsWire.code_preserved_nested. Qed.
+Print Assumptions c14_code_preserved_nested.
+
+Theorem c14_call_when_data_fit : forall r e, is_nil e = false -> ErrsWire.err_data_fits e = true ->
+  ErrsWire.call_nested r e = ErrsWire.Arrives (call r e).
+Proof. exact ErrsWire.call_nested_fits. Qed.
+Print Assumptions c14_call_when_data_fit.
+
+Theorem c14_nesting_side_condition_needed :
+  let e := EJrpc 1 [] (WireSpecs.deep 9999) in
+  wire_data (WireSpecs.deep 9999) = Some (WireSpecs.deep 9999) /\ Json.valid (WireSpecs.deep 9999) = true /\
+  ErrsWire.err_data_fits e = false /\
+  (exists b, Wire.enc_msg (ErrsWire.err_rsp [49]%N (WireSpecs.deep_err 9999)) = Some b /\ Wire.parse_msgs b = InBad) /\
+  (forall r, call r e = OErr (EJrpc 1 [] (WireSpecs.deep 9999))) /\
+  (forall r, ErrsWire.call_nested r e = ErrsWire.ClientStops) /\
+  ErrsWire.err_data_fits (EJrpc 1 [] (WireSpecs.deep 9998)) = true /\
+  (forall r, ErrsWire.call_nested r (EJrpc 1 [] (WireSpecs.deep 9998)) = ErrsWire.Arrives (OErr (EJrpc 1 [] (WireSpecs.deep 9998)))).
+Proof. exact ErrsWire.nesting_side_condition_needed. Qed.
+Print Assumptions c14_nesting_side_condition_needed.
